@@ -26,10 +26,164 @@ const (
 	req = 0x00c0ffee
 )
 
-// Run explores both scenarios.
+// Run explores the three scenarios (C08).
 func Run(r *ev.Run, bound int, deadline time.Duration) {
+	RunBasic(r, bound, deadline)
+	runChain(r, bound, deadline)
+}
+
+// RunBasic explores the two one-hop scenarios (C04, which has a chain scenario of its own).
+func RunBasic(r *ev.Run, bound int, deadline time.Duration) {
 	runRegister(r, bound, deadline)
 	runAnswer(r, bound, deadline)
+}
+
+const idE = 0x0000d0e5
+
+// unwrap peels one pivot layer: the task must be a COMMAND_PIVOT/SMB_COMMAND for child,
+// its frame must carry exactly one task under the child's key.
+func unwrap(tk demonwire.Task, child uint32, k byte) (demonwire.Task, string) {
+	if tk.Cmd != agent.COMMAND_PIVOT {
+		return tk, fmt.Sprintf("command %d is not a pivot command", tk.Cmd)
+	}
+	sub, c, frame, ok := demonwire.ParsePivotCommandTask(tk.Body)
+	fr := &demonwire.R{B: frame}
+	fid := fr.I32()
+	pkg := fr.Bytes()
+	if !ok || sub != agent.DEMON_PIVOT_SMB_COMMAND || c != child || fr.Err || fid != child {
+		return tk, fmt.Sprintf("layer for %08x: sub=%d child=%08x frame-id=%08x", child, sub, c, fid)
+	}
+	inner, err := demonwire.ReadTasks(pkg, seam.Key(k), seam.IV(k))
+	if err != nil || len(inner) != 1 {
+		return tk, fmt.Sprintf("layer for %08x holds %d tasks (err=%v)", child, len(inner), err)
+	}
+	return inner[0], ""
+}
+
+// runChain: D <- C <- E.  One operator tasks E (two hops behind D), another tasks C, while
+// the listener serves D's check-ins.  Whatever the interleaving: both tasks arrive through
+// D exactly once, each wrapped once per hop for its own chain (every queue operation of a
+// chain ends in the first hop's queue, under the first hop's lock).
+func runChain(r *ev.Run, bound int, deadline time.Duration) {
+	if !vsched.Instrumented {
+		return
+	}
+	const reqC, reqE = 0x00c0ffc3, 0x00c0ffe5
+	outcomes := map[string]bool{}
+	t := explore.Tree{Bound: bound, Deadline: time.Now().Add(deadline)}
+	t.Run(func(c *explore.Chooser) {
+		ts := seam.New(seam.Options{})
+		defer ts.Close()
+		ts.MustRegister(idD, 1)
+		b := &demonwire.W{}
+		b.I32(agent.DEMON_PIVOT_SMB_CONNECT).I32(1).Bytes(demonwire.Register(idC, seam.Key(3), seam.IV(3), demonwire.DefaultMeta(idC)))
+		ts.CheckIn(idD, 1, demonwire.Sub{Cmd: agent.COMMAND_PIVOT, Body: b.B})
+		// E registers behind C: C reports the connect, D relays C's package
+		eb := &demonwire.W{}
+		eb.I32(agent.DEMON_PIVOT_SMB_CONNECT).I32(1).Bytes(demonwire.Register(idE, seam.Key(5), seam.IV(5), demonwire.DefaultMeta(idE)))
+		cpkg := demonwire.CallbacksOnly(idC, seam.Key(3), seam.IV(3), demonwire.Sub{Cmd: agent.COMMAND_PIVOT, Body: eb.B})
+		rw := &demonwire.W{}
+		rw.I32(agent.DEMON_PIVOT_SMB_COMMAND).Bytes(cpkg)
+		ts.CheckIn(idD, 1, demonwire.Sub{Cmd: agent.COMMAND_PIVOT, Body: rw.B})
+		cA, eA := ts.Agent(idC), ts.Agent(idE)
+		if cA == nil || eA == nil || eA.Pivots.Parent != cA {
+			r.Violate("sched-chain/setup", "the chain D <- C <- E could not be built", nil)
+			return
+		}
+		s := vsched.New(c, 20000, "JobQueue", "Tasks", "sync.Mutex", "Parent", "Links")
+		s.SpinFree = 16
+		var bad []string
+		var got []demonwire.Task
+		s.Spawn("operator-1", func() {
+			if p := ts.Task(idE, fmt.Sprintf("%08x", reqE), agent.COMMAND_SLEEP, map[string]any{"Arguments": "5;10"}); p != nil && !vsched.IsAbort(p) {
+				bad = append(bad, fmt.Sprint("operator-1: ", p))
+			}
+		})
+		s.Spawn("operator-2", func() {
+			if p := ts.Task(idC, fmt.Sprintf("%08x", reqC), agent.COMMAND_SLEEP, map[string]any{"Arguments": "6;11"}); p != nil && !vsched.IsAbort(p) {
+				bad = append(bad, fmt.Sprint("operator-2: ", p))
+			}
+		})
+		s.Spawn("listener", func() {
+			for i := 0; i < 2; i++ {
+				res, tasks, _ := ts.CheckIn(idD, 1)
+				if res.Panic != nil {
+					if !vsched.IsAbort(res.Panic) {
+						bad = append(bad, fmt.Sprintf("listener: %v @ %s", res.Panic, res.Stack))
+					}
+					return
+				}
+				got = append(got, tasks...)
+			}
+		})
+		s.Run()
+		detail := map[string]any{"choices": c.Choices(), "schedule_tail": tail(s.Trace, 60)}
+		switch {
+		case len(s.Panics) > 0 || len(bad) > 0:
+			all := append(append([]string(nil), s.Panics...), bad...)
+			r.Violate("sched-chain/panic/"+ev.Normalize(all[0]), fmt.Sprint(all), detail)
+			return
+		case s.Deadlock:
+			r.Violate("sched-chain/deadlock", s.DeadlockWhy, detail)
+			return
+		case s.HorizonHit:
+			r.Violate("sched-chain/horizon", "did not finish", detail)
+			return
+		case len(s.Held()) > 0:
+			r.Violate("sched-chain/lock-held", fmt.Sprint(s.Held()), detail)
+			return
+		}
+		for i := 0; i < 2; i++ { // sequentially: whatever is still queued
+			_, tasks, _ := ts.CheckIn(idD, 1)
+			got = append(got, tasks...)
+		}
+		forC, forE, other := 0, 0, 0
+		why := ""
+		for _, tk := range got {
+			if tk.Cmd == 10 { // COMMAND_NOJOB
+				continue
+			}
+			l1, bad1 := unwrap(tk, idC, 3)
+			if bad1 != "" {
+				other++
+				why = bad1
+				continue
+			}
+			if l1.Cmd == agent.COMMAND_SLEEP && l1.ReqID == reqC {
+				forC++
+				continue
+			}
+			l2, bad2 := unwrap(l1, idE, 5)
+			if bad2 == "" && l2.Cmd == agent.COMMAND_SLEEP && l2.ReqID == reqE {
+				forE++
+				continue
+			}
+			other++
+			why = bad2
+		}
+		obs := fmt.Sprintf("for-C=%d for-E=%d other=%d", forC, forE, other)
+		outcomes[obs] = true
+		detail["observed"] = obs
+		if forC != 1 || forE != 1 || other != 0 {
+			kind := "lost-task"
+			if forC > 1 || forE > 1 || other > 0 {
+				kind = "duplicate-or-misrouted-task"
+			}
+			r.Violate("sched-chain/"+kind, fmt.Sprintf("one task was issued for C and one for E (two hops behind D); D's check-ins delivered %s %s", obs, why), detail)
+		}
+	})
+	if t.Err != nil {
+		r.Violate("harness/nondeterminism", t.Err.Error(), nil)
+	}
+	if t.Capped {
+		r.NotExhaustive("chain schedules stopped by the internal deadline")
+	}
+	for o := range outcomes {
+		r.Outcome("sched-chain/" + o)
+	}
+	r.Extra["schedules_chain"] = map[string]any{"executions": t.Executions, "choice_points": t.Points, "preemption_bound": bound, "distinct_observations": len(outcomes)}
+	r.Eval(int(t.Executions))
+	r.AddStates(t.Points, t.Points, t.Executions)
 }
 
 // runAnswer: C is a session behind D.  An operator's task for C is being issued while the
